@@ -46,7 +46,61 @@ def frames(case, api=None):
             out.append(impl.typed_frame([dict({k: r[k] for k in types}, source_dataset=ALIASES[ti]) for r in rows], t2))
         else:
             out.append(impl.typed_frame([{k: r[k] for k in types} for r in rows], types))
+    return layout(case, out)
+
+
+def layout(case, out):
+    """Input layouts (all optional, absent = the tables as generated): `preconcat` = ONE pre-concatenated table carrying its own source
+    dataset column (rows of the datasets interleaved); `uid_col` / `sd_col` = other names for the unique id / source dataset columns;
+    `col_perm` = the tables after the first list the same columns in another order."""
+    uid, sd = case.get("uid_col", "unique_id"), case.get("sd_col", "source_dataset")
+    arrow = bool(case.get("with_arr"))
+    rng = random.Random(case.get("shuffle", 0) + 17)
+    if case.get("preconcat"):
+        if arrow:
+            import pyarrow as pa
+
+            one = pa.concat_tables(out)
+            idx = list(range(one.num_rows))
+            rng.shuffle(idx)
+            one = one.take(idx)
+        else:
+            import pandas as pd
+
+            one = pd.concat(out, ignore_index=True)
+            idx = list(range(len(one)))
+            rng.shuffle(idx)
+            one = one.iloc[idx].reset_index(drop=True)
+        out = [one]
+    ren = {"unique_id": uid, "source_dataset": sd}
+    if uid != "unique_id" or sd != "source_dataset":
+        out = [t.rename_columns([ren.get(c, c) for c in t.column_names]) if arrow else t.rename(columns=ren) for t in out]
+    if case.get("col_perm"):
+        for ti in range(1, len(out)):
+            cols = list(out[ti].column_names if arrow else out[ti].columns)
+            rng.shuffle(cols)
+            out[ti] = out[ti].select(cols) if arrow else out[ti][cols]
     return out
+
+
+def table_names(case):
+    """Names under which a session's tables live in the database."""
+    if case.get("preconcat") or len(case["tables"]) == 1:
+        return ["people"]
+    return ["left_t", "right_t", "third_t"][: len(case["tables"])]
+
+
+def call_kw(case):
+    """unique_id_column_name / source_dataset_column_name as the case wants them given (absent options = as before: the unique id name
+    always given, the source dataset name given iff the tables carry the column)."""
+    kw = {}
+    uid, sd = case.get("uid_col", "unique_id"), case.get("sd_col", "source_dataset")
+    if uid != "unique_id" or not case.get("uid_arg_omitted"):
+        kw["unique_id_column_name"] = uid
+    if len(case["tables"]) > 1 and (case["explicit_sd"] or sd != "source_dataset"):
+        if not (sd == "source_dataset" and case.get("sd_arg_omitted") and not case.get("preconcat")):
+            kw["source_dataset_column_name"] = sd  # not explicit_sd: Splink has to create the column under this name
+    return kw
 
 
 def rule_arg(r):
@@ -58,7 +112,84 @@ def rule_arg(r):
     return text
 
 
+def rule_obj(r, form=None):
+    """The rule in the form the case asks for: None/'str' = SQL text (dict for salted / exploding rules, as before); 'dict' = a dict
+    for every kind; 'creator' = a CustomRule object; 'block_on' = block_on(...) for the same-column / substr equality conjuncts,
+    AND-ed (And creator) with a CustomRule of the remaining conjuncts."""
+    arg = rule_arg(r)
+    if form in (None, "str"):
+        return arg
+    if form == "dict":
+        return arg if isinstance(arg, dict) else {"blocking_rule": arg}
+    from splink.internals.blocking_rule_library import And, CustomRule, block_on
+
+    if form == "block_on" and r["kind"] == "plain":
+        cj = conjuncts(r["ast"])
+        keys = [c for c in cj if (c[0] == "eq" and c[1] == c[2]) or c[0] == "sub"]
+        rest = [c for c in cj if c not in keys]
+        if keys:
+            b = block_on(*[c[1] if c[0] == "eq" else f"substr({c[1]}, 1, 1)" for c in keys])
+            if not rest:
+                return b
+            ast = rest[0]
+            for c in rest[1:]:
+                ast = ("and", ast, c)
+            return And(b, CustomRule(bg.sql(ast)))
+    return CustomRule(**arg) if isinstance(arg, dict) else CustomRule(arg)
+
+
+def count_kw(case):
+    kw = {}
+    if case.get("no_post"):
+        kw["compute_post_filter_count"] = False
+    if case.get("max_rows_limit") is not None:
+        kw["max_rows_limit"] = case["max_rows_limit"]
+    return kw
+
+
+def post_value(res):
+    v = res["number_of_comparisons_to_be_scored_post_filter_conditions"]
+    return v if isinstance(v, str) else int(v)
+
+
+def cumulative_rows(df):
+    recs = df if isinstance(df, list) else df.to_dict(orient="records")
+    return ([[int(r["row_count"]), int(r["cumulative_rows"]), int(r["start"])] for r in recs], float(recs[0]["cartesian"]) if recs else None,
+            [int(r["match_key"]) for r in recs])
+
+
+def chart_records(chart):
+    d = chart if isinstance(chart, dict) else chart.to_dict()
+    data = d.get("data", {})
+    return data["values"] if "values" in data else d["datasets"][data["name"]]
+
+
+def nlargest_rows(sdf):
+    return [[[r[k] for k in sorted(r) if k.startswith("key_")], int(r["count_l"]), int(r["count_r"]), int(r["block_count"])] for r in sdf.as_record_dict()]
+
+
+def make_api(case):
+    from harness import impl
+
+    api = impl.make_api(case["engine"], threads=2)
+    if case.get("debug_mode"):
+        api.debug_mode = True  # every CTE becomes a table of its own, printed; nothing is cached
+    return api
+
+
 def run_impl(case: dict) -> dict:
+    if case.get("debug_mode"):
+        import contextlib
+        import io
+
+        with contextlib.redirect_stdout(io.StringIO()):
+            return _run_impl(case)
+    return _run_impl(case)
+
+
+def _run_impl(case: dict) -> dict:
+    if "steps" in case:
+        return run_session(case)
     from splink.internals.blocking_analysis import (
         count_comparisons_from_blocking_rule,
         cumulative_comparisons_to_be_scored_from_blocking_rules_data,
@@ -68,31 +199,265 @@ def run_impl(case: dict) -> dict:
     from harness import impl
 
     out = {}
-    kw = {"unique_id_column_name": "unique_id"}
-    if case["explicit_sd"] and len(case["tables"]) > 1:
-        kw["source_dataset_column_name"] = "source_dataset"
-    api = impl.make_api(case["engine"], threads=2)
-    res = count_comparisons_from_blocking_rule(table_or_tables=frames(case), blocking_rule=rule_arg(case["rule"]), link_type=case["link_type"], db_api=api, **kw)
+    kw = call_kw(case)
+    # the rule objects are built once and the SAME object goes to every call of the case (creators must be reusable)
+    single = rule_obj(case["rule"], case.get("rule_form"))
+    rules = [single] if case.get("rules_is_rule") else [rule_obj(r, case.get("rules_form")) for r in case["rules"]]
+
+    def tt():  # `bare_table`: a single table is given as it is, not in a list
+        fr = frames(case)
+        return fr[0] if case.get("bare_table") and len(fr) == 1 else fr
+
+    api = make_api(case)
+    res = count_comparisons_from_blocking_rule(table_or_tables=tt(), blocking_rule=single, link_type=case["link_type"], db_api=api, **kw, **count_kw(case))
     out["pre"] = int(res["number_of_comparisons_generated_pre_filter_conditions"])
-    out["post"] = int(res["number_of_comparisons_to_be_scored_post_filter_conditions"])
+    out["post"] = post_value(res)
     out["equi"] = res["equi_join_conditions_identified"]
     out["filter"] = res["filter_conditions_identified"]
-    api = impl.make_api(case["engine"], threads=2)
-    df = cumulative_comparisons_to_be_scored_from_blocking_rules_data(table_or_tables=frames(case), blocking_rules=[rule_arg(r) for r in case["rules"]], link_type=case["link_type"], db_api=api, **kw)
-    out["cumulative"] = [[int(r["row_count"]), int(r["cumulative_rows"]), int(r["start"])] for r in df.to_dict(orient="records")]
-    out["cartesian"] = float(df["cartesian"].iloc[0]) if len(df) else None
-    out["match_keys"] = [int(r["match_key"]) for r in df.to_dict(orient="records")]
+    api = make_api(case)
+    ckw = dict(kw, max_rows_limit=case["cum_limit"]) if case.get("cum_limit") is not None else kw
+    try:
+        df = cumulative_comparisons_to_be_scored_from_blocking_rules_data(table_or_tables=tt(), blocking_rules=rules, link_type=case["link_type"], db_api=api, **ckw)
+        out["cumulative"], out["cartesian"], out["match_keys"] = cumulative_rows(df)
+    except ValueError as e:
+        if case.get("cum_limit") is None or "max_rows_limit" not in str(e):
+            raise
+        out["cumulative_refused"] = str(e)[:200]
+        out["cumulative"], out["cartesian"], out["match_keys"] = [], None, []
     out["split_as_assumed"] = sorted(x.strip() for x in out["equi"].split(" AND ") if x.strip()) == expected_equi_strings(case["rule"]["ast"])
     out["atoms"] = reported_atoms(out["equi"])
     out["split_mismatch"] = split_mismatch(case, out["equi"], out["filter"])
     if out["atoms"]:
-        api = impl.make_api(case["engine"], threads=2)
-        top = n_largest_blocks(table_or_tables=frames(case), blocking_rule=rule_arg(case["rule"]), link_type=case["link_type"], db_api=api, n_largest=case["n"]).as_record_dict()
-        out["nlargest"] = [[[r[k] for k in sorted(r) if k.startswith("key_")], int(r["count_l"]), int(r["count_r"]), int(r["block_count"])] for r in top]
+        api = make_api(case)
+        out["nlargest"] = nlargest_rows(n_largest_blocks(table_or_tables=tt(), blocking_rule=single, link_type=case["link_type"], db_api=api, n_largest=case["n"]))
     return out
 
 
 run_impl_safe = core.safe(run_impl)
+
+
+# --------------------------------------------------------------------------- sessions: several calls on ONE database API
+# A session is {..layout/engine fields.., "tables_by": "name"|"frame", "storage": "table"|"registered", "steps": [step, ...]}; a step is
+# {"tables": the contents AT THE TIME OF THE CALL, "change": how they became so (None = untouched | "raw_dml" = insert/update/delete on the
+#  connection | "raw_replace" = drop + create on the connection | "register_overwrite" = db_api.register_table(df, name, overwrite=True) |
+#  "new_frames"), "fn": "count"|"cumulative_data"|"cumulative_chart"|"n_largest", "rule" or "rules", "n", optional "by" (this call only),
+#  optional "expect_error" (a call that must fail: unknown column; the calls after it are judged as usual)}.
+# Every call is judged on its own by the same brute-force clauses as a single call, against the contents of ITS step.
+RAW = "contents changed with raw SQL"
+CHANGE_CLASS = {None: "contents unchanged", "raw_dml": RAW, "raw_replace": RAW, "register_overwrite": "contents replaced with register_table(overwrite=True)",
+                "new_frames": "new frames given"}
+CUM_FNS = ("cumulative_data", "cumulative_chart")
+FN_NAME = {"count": "count_comparisons_from_blocking_rule", "cumulative_data": "cumulative_comparisons_to_be_scored_from_blocking_rules",
+           "cumulative_chart": "cumulative_comparisons_to_be_scored_from_blocking_rules", "n_largest": "n_largest_blocks"}
+FN_CALLED = {"count": "count_comparisons_from_blocking_rule", "cumulative_data": "cumulative_comparisons_to_be_scored_from_blocking_rules_data",
+             "cumulative_chart": "cumulative_comparisons_to_be_scored_from_blocking_rules_chart", "n_largest": "n_largest_blocks"}
+
+
+def step_case(case, i):
+    st = case["steps"][i]
+    rule = st.get("rule") or st["rules"][0]
+    return dict({k: v for k, v in case.items() if k != "steps"}, tables=st["tables"], rule=rule, rules=st.get("rules") or [rule], n=st.get("n", 1))
+
+
+def _records(df):
+    import numbers
+
+    import pandas as pd
+
+    out = []
+    for rec in df.astype(object).to_dict(orient="records"):
+        out.append({k: (None if v is None or v is pd.NA or (isinstance(v, float) and v != v) else (int(v) if isinstance(v, numbers.Integral) else v)) for k, v in rec.items()})
+    return out
+
+
+def _raw_create(engine, con, name, df):
+    """(Re)create table `name` behind Splink's back."""
+    if engine == "duckdb":
+        import duckdb
+
+        for kind in ("table", "view"):
+            try:
+                con.execute(f"drop {kind} if exists {name}")
+            except duckdb.CatalogException:
+                pass
+        con.register("__audit_src", df)
+        con.execute(f"create table {name} as select * from __audit_src")
+        con.unregister("__audit_src")
+    else:
+        df.to_sql(name, con, index=False, if_exists="replace")
+        con.commit()
+
+
+def _raw_dml(engine, con, name, old, new, idcols):
+    """delete / update / insert statements on the connection that turn the rows `old` of table `name` into `new`."""
+    def key(r):
+        return tuple(r[c] for c in idcols)
+
+    o, n = {key(r): r for r in old}, {key(r): r for r in new}
+    where = " and ".join(f"{c} = ?" for c in idcols)
+    for k_ in o:
+        if k_ not in n:
+            con.execute(f"delete from {name} where {where}", list(k_))
+    for k_, r in n.items():
+        cols = list(r)
+        if k_ not in o:
+            con.execute(f"insert into {name} ({', '.join(cols)}) values ({', '.join('?' for _ in cols)})", [r[c] for c in cols])
+        elif o[k_] != r:
+            setc = [c for c in cols if c not in idcols]
+            con.execute(f"update {name} set {', '.join(f'{c} = ?' for c in setc)} where {where}", [r[c] for c in setc] + list(k_))
+    if engine != "duckdb":
+        con.commit()
+
+
+def run_session(case: dict) -> dict:
+    from splink.internals.blocking_analysis import (
+        count_comparisons_from_blocking_rule,
+        cumulative_comparisons_to_be_scored_from_blocking_rules_chart,
+        cumulative_comparisons_to_be_scored_from_blocking_rules_data,
+        n_largest_blocks,
+    )
+
+    from harness import impl
+
+    eng = case["engine"]
+    api = make_api(case)
+    con = api._con if eng == "duckdb" else api.con
+    named = case["tables_by"] == "name"
+    sc0 = step_case(case, 0)
+    names, kw = table_names(sc0), call_kw(sc0)
+    uid, sd = case.get("uid_col", "unique_id"), case.get("sd_col", "source_dataset")
+    objs, is_view, prev, outs = {}, {}, None, []
+
+    def obj(r):  # one object per distinct rule of the session, reused by every call that names the rule
+        k_ = json.dumps(r, sort_keys=True, default=str)
+        if k_ not in objs:
+            objs[k_] = rule_obj(r, case.get("rule_form"))
+        return objs[k_]
+
+    for i, st in enumerate(case["steps"]):
+        sc = step_case(case, i)
+        fr = frames(sc)
+        if named:
+            recs = [_records(df) for df in fr]
+            for j, (name, df) in enumerate(zip(names, fr)):
+                idcols = [c for c in (sd, uid) if c in df.columns]
+                same = prev is not None and sorted(map(repr, prev[j])) == sorted(map(repr, recs[j]))
+                how = st.get("change")
+                if i == 0:
+                    if case.get("storage") == "registered":
+                        api.register_table(df, name)
+                        is_view[name] = eng == "duckdb"
+                    else:
+                        _raw_create(eng, con, name, df)
+                        is_view[name] = False
+                elif how == "register_overwrite":  # every table of the step, changed or not (re-registration)
+                    api.register_table(df, name, overwrite=True)
+                    is_view[name] = eng == "duckdb"
+                elif same:
+                    continue
+                elif how == "raw_dml" and not is_view[name]:
+                    _raw_dml(eng, con, name, prev[j], recs[j], idcols)
+                elif how in ("raw_dml", "raw_replace"):
+                    _raw_create(eng, con, name, df)
+                    is_view[name] = False
+                else:
+                    raise core.HarnessError(f"session step {i}: contents differ from the previous step but no change is declared")
+            prev = recs
+        tt = names if named and st.get("by", "name") == "name" else fr
+        if case.get("bare_table") and len(tt) == 1:
+            tt = tt[0]
+        fn = st["fn"]
+
+        def call(_):
+            o = {"fn": fn}
+            if fn == "count":
+                res = count_comparisons_from_blocking_rule(table_or_tables=tt, blocking_rule=obj(st["rule"]), link_type=case["link_type"], db_api=api, **kw)
+                o.update(pre=int(res["number_of_comparisons_generated_pre_filter_conditions"]), post=post_value(res), equi=res["equi_join_conditions_identified"], filter=res["filter_conditions_identified"])
+            elif fn == "cumulative_data":
+                df_ = cumulative_comparisons_to_be_scored_from_blocking_rules_data(table_or_tables=tt, blocking_rules=[obj(r) for r in st["rules"]], link_type=case["link_type"], db_api=api, **kw)
+                o["cumulative"], o["cartesian"], o["match_keys"] = cumulative_rows(df_)
+            elif fn == "cumulative_chart":
+                ch = cumulative_comparisons_to_be_scored_from_blocking_rules_chart(table_or_tables=tt, blocking_rules=[obj(r) for r in st["rules"]], link_type=case["link_type"], db_api=api, **kw)
+                o["cumulative"], o["cartesian"], o["match_keys"] = cumulative_rows(chart_records(ch))
+            else:
+                # which conjuncts are the keys is not part of this function's result: ask a FRESH api (same rule, same contents)
+                res = count_comparisons_from_blocking_rule(table_or_tables=frames(sc), blocking_rule=rule_obj(st["rule"], case.get("rule_form")), link_type=case["link_type"],
+                                                           db_api=make_api(case), **kw)
+                o.update(equi=res["equi_join_conditions_identified"], filter=res["filter_conditions_identified"])
+                if reported_atoms(o["equi"]):  # as in the single-call family: without equi-join keys the function has nothing to list
+                    o["nlargest"] = nlargest_rows(n_largest_blocks(table_or_tables=tt, blocking_rule=obj(st["rule"]), link_type=case["link_type"], db_api=api, n_largest=st.get("n", 1)))
+                else:
+                    o["skipped"] = "no equi-join keys identified"
+            if "equi" in o:
+                o["atoms"] = reported_atoms(o["equi"])
+                o["split_mismatch"] = split_mismatch(sc, o["equi"], o["filter"])
+            return o
+
+        o = core.safe(call)(None)
+        if st.get("expect_error"):
+            o = {"fn": fn, "expected_error": o.get("__error__")}
+        outs.append(o)
+    return {"steps": outs}
+
+
+def step_verdict(sc, fn, o):
+    if fn in ("count", "n_largest"):
+        sp = split_problem(sc, o)
+        if sp:
+            return sp
+    oc = oracle(sc, o.get("atoms"))
+    if fn == "count":
+        return verdict_count(sc, o, oc)
+    if fn in CUM_FNS:
+        return verdict_cumulative(sc, o, oc)
+    return verdict_nlargest(sc, o, oc)
+
+
+def session_failures(case, r):
+    """[(what, failure key, step index)] - every call of the session that does not report the numbers of the CURRENT contents."""
+    out, last = [], None
+    for i, st in enumerate(case["steps"]):
+        if st.get("change"):
+            last = st["change"]
+        o = r["steps"][i]
+        if st.get("expect_error"):
+            continue
+        sc, fn = step_case(case, i), st["fn"]
+        if core.impl_error(o):
+            v, cls = f"real code raised {o['__error__']}: {o['text'][:300]}", "real code raised"
+        elif (fn in ("count", "n_largest") and o.get("atoms") is None) or "skipped" in o:
+            continue  # reported equi-join conditions not parsable by the harness (counted as excluded) / n_largest_blocks without keys
+        else:
+            v = step_verdict(sc, fn, o)
+            if v is None:
+                continue
+            cls = classify(v)
+            payload = [o.get(k_) for k_ in ("pre", "post", "cumulative", "cartesian", "nlargest")]
+            for j in range(i - 1, -1, -1):
+                sj = case["steps"][j]
+                if sj["tables"] == st["tables"] or sj.get("expect_error"):
+                    continue
+                if step_verdict(dict(sc, tables=sj["tables"]), fn, o) is None:
+                    cls = "result is that of earlier table contents"
+                    v = f"the result is right for the contents the tables had at call {j + 1}, not for their current contents: " + v
+                    break
+                oj = r["steps"][j]
+                if FN_NAME[sj["fn"]] == FN_NAME[fn] and (sj.get("rule"), sj.get("rules")) == (st.get("rule"), st.get("rules")) and [oj.get(k_) for k_ in ("pre", "post", "cumulative", "cartesian", "nlargest")] == payload:
+                    cls = "result is that of earlier table contents"
+                    v = f"the result is what the same call returned at call {j + 1}, when the tables had other contents: " + v
+                    break
+        by = st.get("by", "name") if case["tables_by"] == "name" else "frame"
+        what = f"call {i + 1} of {len(case['steps'])} on one database API [{FN_CALLED[fn]}, tables given by {by}, {CHANGE_CLASS[last]}]: {v}"
+        key = {"failure": cls, "session_fn": FN_NAME[fn], "last_change": CHANGE_CLASS[last]}
+        if cls == "reported split is not the rule":
+            key.update(absorption_shape=absorption_shape(sc["rule"]["ast"]), dnf_bare_disjunct_shape=dnf_bare_disjunct_shape(sc["rule"]["ast"]))
+        out.append((what, key, i))
+    return out
+
+
+def session_failure(case, r):
+    f = session_failures(case, r)
+    return f[0] if f else None
 
 
 # --------------------------------------------------------------------------- harness-side semantics
@@ -123,11 +488,11 @@ def reported_atoms(equi: str):
 
     out = []
     for piece in (x.strip() for x in equi.split(" AND ") if x.strip()):
-        m = re.fullmatch(r"l\.(\w+) = r\.(\w+)", piece)
+        m = re.fullmatch(r'l\."?(\w+)"? = r\."?(\w+)"?', piece)
         if m:
             out.append(("eq", m.group(1), m.group(2)))
             continue
-        m = re.fullmatch(r"SUBSTRING\(l\.(\w+), 1, 1\) = SUBSTRING\(r\.(\w+), 1, 1\)", piece)
+        m = re.fullmatch(r'SUBSTRING\(l\."?(\w+)"?, 1, 1\) = SUBSTRING\(r\."?(\w+)"?, 1, 1\)', piece)
         if m and m.group(1) == m.group(2):
             out.append(("sub", m.group(1)))
             continue
@@ -196,6 +561,8 @@ def key_of(rec, atoms, side):
 
 
 def backend_lt(case):
+    if case.get("preconcat"):
+        return case["link_type"]  # ONE input table: never the two-table link_only form, whatever number of datasets it holds
     return c01.backend_link_type(case)
 
 
@@ -218,6 +585,8 @@ def model_request(case, atoms=None):
     counts = [len(t) for t in case["tables"]]
     if case["link_type"] == "link_and_dedupe" or case["link_type"] == "link_only":
         counts = [c for c in counts if c > 0]  # GROUP BY source_dataset: empty tables form no group
+    elif len(counts) > 1:
+        counts = [sum(counts)]  # dedupe_only over one pre-concatenated table: one count(*)
     return {
         "op": "blockanalysis", "lt": backend_lt(case), "m": len(recs), "key": keys, "sd": sds, "salt": [core.f2b(0.5)] * len(recs),
         "firstSd": 0, "rule": {"kind": "plain", "n": 0, "eval": c01.rule_matrix(dict(case["rule"], kind="plain"), recs)},
@@ -287,18 +656,39 @@ def oracle(case, atoms=None):
     return {"post": post, "pre": pre, "blocks": blocks, "per_rule": per_rule, "cartesian": cart}
 
 
-def verdict(case, r):
-    sp = split_problem(case, r)
-    if sp:
-        return sp
-    o = oracle(case, r.get("atoms"))
-    if r["post"] != o["post"]:
-        return f"post-filter count {r['post']} but blocking scores {o['post']} pairs for this rule and link type"
+def verdict_count(case, r, o):
+    """count_comparisons_from_blocking_rule: pre = sum of block products, post = pairs blocking scores (or, with the options, the
+    documented placeholder: 'not computed' without the post-filter count; the count only if the pre-filter count is BELOW max_rows_limit)."""
     if r["pre"] != o["pre"]:
+        if r["post"] != o["post"] and not isinstance(r["post"], str):
+            return f"post-filter count {r['post']} but blocking scores {o['post']} pairs for this rule and link type (and pre-filter count {r['pre']} but the sum of block products is {o['pre']})"
         return f"pre-filter count {r['pre']} but the sum over key values of left x right block sizes is {o['pre']}"
+    if case.get("no_post"):
+        want = "not computed"
+    elif case.get("max_rows_limit") is not None and not (o["pre"] < case["max_rows_limit"]):
+        want = "exceeded max_rows_limit, see warning"
+    else:
+        want = o["post"]
+    if r["post"] != want:
+        if isinstance(want, str) or isinstance(r["post"], str):
+            return f"post-filter count reported as {r['post']!r} but with compute_post_filter_count={not case.get('no_post')}, max_rows_limit={case.get('max_rows_limit')} and a pre-filter count of {o['pre']} it must be {want!r}"
+        return f"post-filter count {r['post']} but blocking scores {o['post']} pairs for this rule and link type"
+    return None
+
+
+def verdict_cumulative(case, r, o):
+    if case.get("cum_limit") is not None:
+        # rules = [the single rule]: the function must refuse iff that rule's pre-filter count EXCEEDS max_rows_limit
+        if (o["pre"] > case["cum_limit"]) != ("cumulative_refused" in r):
+            return (f"cumulative counts with max_rows_limit={case['cum_limit']} and a rule generating {o['pre']} comparisons pre-filter: "
+                    + ("refused although the limit is not exceeded" if "cumulative_refused" in r else "not refused although the limit is exceeded"))
+        if "cumulative_refused" in r:
+            return None
     got = [c[0] for c in r["cumulative"]]
     if got != o["per_rule"]:
         return f"marginal counts per rule {got} but scored pairs per match_key are {o['per_rule']}"
+    if r.get("match_keys") is not None and r["match_keys"] != list(range(len(o["per_rule"]))):
+        return f"marginal counts: match_keys {r['match_keys']} are not 0..{len(o['per_rule']) - 1} in order"
     run = 0
     for (rc, cum, start) in r["cumulative"]:
         if start != run or cum != run + rc:
@@ -306,16 +696,35 @@ def verdict(case, r):
         run += rc
     if r["cartesian"] is not None and not core.close(r["cartesian"], o["cartesian"], 1e-12):
         return f"cartesian {r['cartesian']} but there are {o['cartesian']} admissible pairs"
-    if "nlargest" in r:
-        want = sorted((v[0] * v[1] for v in o["blocks"].values()), reverse=True)[: case["n"]]
-        gotb = [x[3] for x in r["nlargest"]]
-        if gotb != want:
-            return f"n_largest_blocks block sizes {gotb} but the largest blocks are {want}"
-        for key, cl, cr, bc in r["nlargest"]:
-            k = tuple(key)
-            if k not in o["blocks"] or o["blocks"][k] != [cl, cr] or bc != cl * cr:
-                return f"n_largest_blocks row {key, cl, cr, bc} does not match the true block {o['blocks'].get(k)}"
     return None
+
+
+def verdict_nlargest(case, r, o):
+    want = sorted((v[0] * v[1] for v in o["blocks"].values()), reverse=True)[: case["n"]]
+    gotb = [x[3] for x in r["nlargest"]]
+    if gotb != want:
+        return f"n_largest_blocks block sizes {gotb} but the largest blocks are {want}"
+    for key, cl, cr, bc in r["nlargest"]:
+        k = tuple(key)
+        if k not in o["blocks"] or o["blocks"][k] != [cl, cr] or bc != cl * cr:
+            return f"n_largest_blocks row {key, cl, cr, bc} does not match the true block {o['blocks'].get(k)}"
+    return None
+
+
+def verdict(case, r):
+    if "steps" in case:
+        f = session_failure(case, r)
+        return f and f[0]
+    sp = split_problem(case, r)
+    if sp:
+        return sp
+    o = oracle(case, r.get("atoms"))
+    v = verdict_count(case, r, o)
+    if v is None:
+        v = verdict_cumulative(case, r, o)
+    if v is None and "nlargest" in r:
+        v = verdict_nlargest(case, r, o)
+    return v
 
 
 # --------------------------------------------------------------------------- generation
@@ -373,9 +782,176 @@ def gen_case(rng: random.Random, engine=None):
             "shuffle": rng.randrange(1 << 30), "tag": "random"}
 
 
+def gen_conj_rule(rng, asym):
+    """A conjunction with equi-join keys and (optionally) filter parts - the single-rule shape of gen_case."""
+    cols = rng.sample(["a", "b", "c"], rng.randint(1, 3))
+    parts = [("sub", c) if c != "c" and rng.random() < 0.25 else ("eq", c, c) for c in cols]
+    if rng.random() < 0.25:
+        x = rng.choice(["a", "b"])
+        parts.append(("eq", x, "b" if x == "a" else "a"))
+    if asym and rng.random() < 0.6:
+        parts.append(rng.choice([("lt", "c"), ("lit", "l", "a", "x"), ("lit", "r", "b", "y")]))
+    if rng.random() < 0.35:
+        parts.append(("or", bg.gen_atom(rng, asym), bg.gen_atom(rng, asym)) if rng.random() < 0.5 else ("not", bg.gen_atom(rng, False)))
+    rng.shuffle(parts)
+    ast = parts[0]
+    for p_ in parts[1:]:
+        ast = ("and", ast, p_)
+    return {"kind": "plain", "ast": ast, "top_unparenthesised": rng.random() < 0.5}
+
+
+def gen_layout(rng, c):
+    """Input layouts and argument forms on top of a case (see layout / call_kw)."""
+    k = len(c["tables"])
+    r = rng.random()
+    if r < 0.25:
+        c["uid_col"] = "rec_id"
+    elif r < 0.5:
+        c["uid_arg_omitted"] = True  # the default of unique_id_column_name
+    if k > 1:
+        r = rng.random()
+        if r < 0.25:
+            c["sd_col"] = "src"  # explicit_sd: the tables carry it under this name; otherwise Splink has to create it under this name
+        elif r < 0.5 and c["explicit_sd"]:
+            c["sd_arg_omitted"] = True  # None instead of the default name
+        if rng.random() < 0.3:
+            c["col_perm"] = True
+        if rng.random() < 0.2:
+            # ONE pre-concatenated table with its own source dataset column; every link type (dedupe_only: the composite id is unique)
+            c.update(preconcat=True, explicit_sd=True, link_type=rng.choice(["link_only", "link_and_dedupe", "dedupe_only"]))
+            c.pop("sd_arg_omitted", None)
+    if (k == 1 or c.get("preconcat")) and rng.random() < 0.4:
+        c["bare_table"] = True
+    if rng.random() < 0.07:
+        c["debug_mode"] = True
+    return c
+
+
+def gen_options(rng, c):
+    """Non-default options, boundary values and layouts on top of a gen_case case."""
+    gen_layout(rng, c)
+    if rng.random() < 0.2:
+        c["n"] = rng.choice([0, 0, 3, 50])
+    c["rule_form"] = rng.choice([None, None, "creator", "block_on", "block_on", "dict"])
+    c["rules_form"] = rng.choice([None, None, "creator", "block_on", "dict"])
+    if rng.random() < 0.06:
+        # an input table without rows (with some probability every table)
+        every = rng.random() < 0.15
+        ti = rng.randrange(len(c["tables"]))
+        c["tables"] = [[] if every or i == ti else t for i, t in enumerate(c["tables"])]
+    r = rng.random()
+    if r < 0.08:
+        c["no_post"] = True
+    elif r < 0.33:
+        # max_rows_limit on / next to the pre-filter count (as the harness would split the rule; the verdict uses the reported split)
+        c["max_rows_limit"] = max(0, oracle(c)["pre"] + rng.choice([-1, 0, 0, 1]))
+    if rng.random() < 0.15:
+        # the rule list IS the single rule (same object): max_rows_limit of the cumulative function on / next to its pre-filter count
+        c["rules"] = [json.loads(json.dumps(c["rule"]))]
+        c["rules_is_rule"] = True
+        c["cum_limit"] = max(0, oracle(c)["pre"] + rng.choice([-1, 0, 0, 1]))
+    if not c.get("rules_is_rule") and rng.random() < 0.1:
+        c["rule"] = dict(c["rule"], kind="salted", n=rng.randint(2, 3))  # salting does not change which pairs are scored
+    c["tag"] = "options"
+    return normalise(c)
+
+
+def mutate_tables(rng, tables, idtype):
+    new = json.loads(json.dumps(tables))
+    which = [ti for ti in range(len(new)) if rng.random() < 0.7] or [rng.randrange(len(new))]
+
+    def val(col):
+        return None if rng.random() < 0.2 else rng.choice(bg.INT_DOM if col == "c" else bg.STR_DOM)
+
+    def insert(rows, n):
+        used = {r["unique_id"] for r in rows}
+        pool = [u for u in (range(16) if idtype == "int" else [f"i{j}" for j in range(16)]) if u not in used]
+        for u in rng.sample(pool, min(len(pool), n)):
+            rows.append({"unique_id": u, "a": val("a"), "b": val("b"), "c": val("c")})
+
+    for ti in which:
+        rows = new[ti]
+        for _ in range(rng.choice([0, 0, 1, 2])):
+            if len(rows) > 1:
+                rows.pop(rng.randrange(len(rows)))
+        for _ in range(rng.choice([0, 1, 1, 2])):
+            if rows:
+                col = rng.choice("abc")
+                rng.choice(rows)[col] = val(col)
+        insert(rows, rng.choice([0, 1, 2, 3]))
+    if new == tables:
+        insert(new[which[0]], 2)
+    return new
+
+
+def gen_session(rng: random.Random):
+    """2-4 calls of the analysis functions on ONE database API: tables by name (created with raw SQL or registered through Splink) or as
+    frames, same or different rules, contents changed in between through Splink (register_table overwrite) or behind its back (raw SQL)."""
+    engine = rng.choice(["duckdb", "duckdb", "sqlite"])
+    k = rng.choice([1, 1, 2, 2, 2, 3])
+    link_type = "dedupe_only" if k == 1 else rng.choice(["link_only", "link_only", "link_and_dedupe"])
+    idtype = rng.choice(["int", "str"])
+    tables = bg.gen_tables(rng, k, max_rows=rng.choice([3, 5, 7]), idtype=idtype, min_rows=1)
+    asym = rng.random() < 0.3
+    c = {"engine": engine, "link_type": link_type, "tables": tables, "idtype": idtype, "with_arr": False, "explicit_sd": rng.random() < 0.6,
+         "shuffle": rng.randrange(1 << 30), "tag": "session", "tables_by": "name" if rng.random() < 0.8 else "frame", "storage": rng.choice(["table", "table", "registered"]),
+         "rule_form": rng.choice([None, None, None, "creator", "block_on"])}
+    gen_layout(rng, c)
+    singles = [gen_conj_rule(rng, asym) for _ in range(rng.choice([1, 2]))]
+    lists = [[{"kind": "plain", "ast": bg.gen_rule(rng, depth=2, asym_ok=asym), "top_unparenthesised": rng.random() < 0.5} for _ in range(rng.randint(1, 3))] for _ in range(rng.choice([1, 2]))]
+    all_fns = ["count", "count", "cumulative_data", "cumulative_chart", "n_largest"]
+    repeat = rng.random() < 0.55  # the same call again and again
+    fns = [rng.choice(all_fns)] if repeat else rng.sample(["count", "cumulative_data", "cumulative_chart", "n_largest"], 2)
+    if repeat:
+        singles, lists = singles[:1], lists[:1]
+    n = rng.choice([1, 2, 5])
+    steps, is_view = [], engine == "duckdb" and c["storage"] == "registered"
+    for i in range(rng.choice([2, 2, 3, 3, 4])):
+        change = None
+        if i > 0 and rng.random() < 0.8:
+            if c["tables_by"] == "frame":
+                change = "new_frames"
+            elif is_view:
+                change = rng.choice(["register_overwrite", "raw_replace"])
+            else:
+                change = rng.choice(["raw_dml", "raw_dml", "raw_replace", "register_overwrite"])
+            if not (change == "register_overwrite" and rng.random() < 0.15):  # else: re-registration of unchanged contents
+                tables = mutate_tables(rng, tables, idtype)
+            if change == "register_overwrite":
+                is_view = engine == "duckdb"
+            elif change == "raw_replace":
+                is_view = False
+        fn = rng.choice(fns)
+        st = {"tables": tables, "change": change, "fn": fn}
+        if fn in CUM_FNS:
+            st["rules"] = rng.choice(lists)
+        else:
+            st["rule"] = rng.choice(singles)
+            st["n"] = n
+        if c["tables_by"] == "name" and rng.random() < 0.1:
+            st["by"] = "frame"
+        steps.append(st)
+    if rng.random() < 0.12:
+        # a call that fails (unknown column) somewhere in the session: the calls after it are judged as usual
+        at = rng.randrange(len(steps))
+        steps.insert(at, {"tables": steps[at - 1]["tables"] if at else steps[0]["tables"], "change": None, "fn": "count",
+                          "rule": {"kind": "plain", "ast": ("eq", "no_such_column", "no_such_column"), "top_unparenthesised": False}, "expect_error": True})
+    c["steps"] = steps
+    return normalise(c)
+
+
 def normalise(case):
     def tup(x):
         return tuple(tup(y) for y in x) if isinstance(x, list) else x
+
+    if "steps" in case:
+        c = json.loads(json.dumps(case))
+        for st in c["steps"]:
+            if "rule" in st:
+                st["rule"] = dict(st["rule"], ast=tup(st["rule"]["ast"]))
+            if "rules" in st:
+                st["rules"] = [dict(r, ast=tup(r["ast"])) for r in st["rules"]]
+        return c
 
     c = dict(case)
     c["rule"] = dict(case["rule"], ast=tup(case["rule"]["ast"]))
@@ -383,13 +959,29 @@ def normalise(case):
     return c
 
 
+def option_counters(ctx, c):
+    ctx.count("layout_preconcatenated_single_table", bool(c.get("preconcat")))
+    ctx.count("layout_unique_id_column", c.get("uid_col", "unique_id") + (" (argument omitted)" if c.get("uid_arg_omitted") and c.get("uid_col", "unique_id") == "unique_id" else ""))
+    if len(c["tables"]) > 1:
+        ctx.count("layout_source_dataset_column", ("in the tables as " if c["explicit_sd"] else "created by Splink as ") + c.get("sd_col", "source_dataset")
+                  + (" (argument omitted)" if c.get("sd_arg_omitted") and c["explicit_sd"] and c.get("sd_col", "source_dataset") == "source_dataset" and not c.get("preconcat") else ""))
+        ctx.count("layout_columns_in_other_order", bool(c.get("col_perm")))
+    ctx.count("layout_single_table_not_in_a_list", bool(c.get("bare_table")))
+    ctx.count("some_table_empty", any(len(t) == 0 for t in c["tables"]))
+    ctx.count("api_debug_mode", bool(c.get("debug_mode")))
+
+
 def compare(ctx, cases, drv):
+    sessions = [c for c in cases if "steps" in c]
+    cases = [c for c in cases if "steps" not in c]
+    problems = compare_sessions(ctx, sessions, drv) if sessions else []
+    if not cases:
+        return problems
     res = core.pmap(run_impl_safe, cases, chunksize=2)
     # the model is asked about the equi-join keys the real code says it identified (sqlglot's choice; checked to be a split of
     # the rule by split_problem), so that no case has to be excluded because of that choice
     reqs = [model_request(c, [tuple(a) for a in r["atoms"]] if isinstance(r, dict) and r.get("atoms") is not None else None)[0] for c, r in zip(cases, res)]
     mres = drv.pbatch(reqs)
-    problems = []
     for c, req, r, m in zip(cases, reqs, res, mres):
         o = oracle(c)
         atoms, flt = equi_conjuncts(c["rule"]["ast"])
@@ -398,6 +990,11 @@ def compare(ctx, cases, drv):
         ctx.count("engine", c["engine"]); ctx.count("link_type", backend_lt(c)); ctx.count("n_equi_keys", len(atoms)); ctx.count("has_filter_part", bool(flt))
         ctx.count("n_rules", len(c["rules"])); ctx.count("exploding_rules_in_list", sum(1 for x in c["rules"] if x["kind"] == "exploding")); ctx.count("asymmetric", not bg.symmetric(c["rule"]["ast"]) or any(not bg.symmetric(x["ast"]) for x in c["rules"]))
         ctx.count("null_keys", any(k is None for k in req["keyL"]))
+        option_counters(ctx, c)
+        ctx.count("single_rule_salted", c["rule"]["kind"] == "salted"); ctx.count("n_largest", c["n"]); ctx.count("rule_form", f"{c.get('rule_form') or 'str'} / list: {c.get('rules_form') or 'str'}")
+        ctx.count("count_options", "compute_post_filter_count=False" if c.get("no_post") else "default" if c.get("max_rows_limit") is None else
+                  "max_rows_limit " + ("below" if c["max_rows_limit"] < o["pre"] else "equal to" if c["max_rows_limit"] == o["pre"] else "above") + " the pre-filter count")
+        ctx.count("cumulative_max_rows_limit", "default" if c.get("cum_limit") is None else ("below" if c["cum_limit"] < o["pre"] else "equal to" if c["cum_limit"] == o["pre"] else "above") + " the rule's pre-filter count")
         if core.impl_error(r):
             ctx.count("impl_error", r["__error__"])
             problems.append((c, f"real code raised {r['__error__']}: {r['text'][:300]}", True))
@@ -413,8 +1010,10 @@ def compare(ctx, cases, drv):
             problems.append((c, v, True))
             continue
         bad = None
-        if m["pre"] != r["pre"] or m["post"] != r["post"]:
+        if m["pre"] != r["pre"] or (m["post"] != r["post"] and not isinstance(r["post"], str)):
             bad = f"pre/post impl ({r['pre']}, {r['post']}) model ({m['pre']}, {m['post']})"
+        elif "cumulative_refused" in r:
+            pass
         elif m["cumulative"] != r["cumulative"]:
             bad = f"cumulative impl {r['cumulative']} model {m['cumulative']}"
         elif r["cartesian"] is not None and (m["cartesian"] is None or not core.close(core.b2f(m["cartesian"]), r["cartesian"], 1e-12)):
@@ -428,16 +1027,129 @@ def compare(ctx, cases, drv):
     return problems
 
 
+def compare_sessions(ctx, cases, drv):
+    res = core.pmap(run_impl_safe, cases, chunksize=2)
+    problems, reqs, where = [], [], []
+    for c, r in zip(cases, res):
+        steps = c["steps"]
+        judged = [i for i, st in enumerate(steps) if not st.get("expect_error")]
+        exp = [oracle(step_case(c, i)) for i in judged]
+        ctx.case({k: c[k] for k in ("steps", "link_type", "engine", "tables_by")}, any(o["post"] > 0 or sum(o["per_rule"]) > 0 for o in exp))
+        ctx.count("session_calls", len(steps)); ctx.count("session_engine", c["engine"]); ctx.count("session_link_type", backend_lt(step_case(c, 0)))
+        ctx.count("session_tables_given", f"by {c['tables_by']}" + (f" ({c['storage']})" if c["tables_by"] == "name" else "")); ctx.count("session_rule_form", c.get("rule_form") or "str")
+        option_counters(ctx, step_case(c, 0))
+        seen = {}
+        for i, st in enumerate(steps):
+            ctx.count("session_call_fn", FN_CALLED[st["fn"]] + (" (a call that must fail)" if st.get("expect_error") else "")); ctx.count("session_change_before_call", CHANGE_CLASS[st.get("change")] if i else "first call")
+            if st.get("by"):
+                ctx.count("session_call_with_frames_in_a_named_session", True)
+            if st.get("expect_error"):
+                continue
+            sig = json.dumps([st["fn"], st.get("rule"), st.get("rules"), st.get("by")], sort_keys=True, default=str)
+            if sig in seen and seen[sig] != st["tables"]:
+                last = [x.get("change") for x in steps[: i + 1] if x.get("change")][-1]
+                ctx.count("session_same_call_repeated_after", CHANGE_CLASS[last])
+            seen[sig] = st["tables"]
+        if core.impl_error(r):
+            ctx.count("impl_error", r["__error__"])
+            problems.append((c, f"real code raised {r['__error__']}: {r['text'][:300]}", True, {"failure": "real code raised", "session_fn": "session set-up", "last_change": "n/a"}))
+            continue
+        for i in judged:
+            o = r["steps"][i]
+            if "__error__" in o and core.impl_error(o):
+                ctx.count("impl_error", o["__error__"])
+            elif steps[i]["fn"] in ("count", "n_largest") and o.get("atoms") is None:
+                ctx.count("excluded", "reported equi-join conditions not parsable by the harness")
+            elif "skipped" in o:
+                ctx.count("session_n_largest_not_called", o["skipped"])
+        fails = session_failures(c, r)
+        for what, key, _ in fails:
+            problems.append((c, what, True, key))
+        failed = {i for _, _, i in fails}
+        for i in judged:
+            o = r["steps"][i]
+            if i in failed or "__error__" in o or "skipped" in o or (steps[i]["fn"] in ("count", "n_largest") and o.get("atoms") is None):
+                continue
+            reqs.append(model_request(step_case(c, i), [tuple(a) for a in o["atoms"]] if o.get("atoms") is not None else None)[0])
+            where.append((c, i, o))
+    for (c, i, o), m in zip(where, drv.pbatch(reqs) if reqs else []):
+        if "error" in m:
+            raise core.HarnessError("model driver error: " + m["error"])
+        fn, bad = c["steps"][i]["fn"], None
+        if fn == "count" and (m["pre"], m["post"]) != (o["pre"], o["post"]):
+            bad = f"pre/post impl ({o['pre']}, {o['post']}) model ({m['pre']}, {m['post']})"
+        elif fn in CUM_FNS and m["cumulative"] != o["cumulative"]:
+            bad = f"cumulative impl {o['cumulative']} model {m['cumulative']}"
+        elif fn in CUM_FNS and o["cartesian"] is not None and (m["cartesian"] is None or not core.close(core.b2f(m["cartesian"]), o["cartesian"], 1e-12)):
+            bad = f"cartesian impl {o['cartesian']} model {m['cartesian'] and core.b2f(m['cartesian'])}"
+        elif fn == "n_largest" and [x[3] for x in o["nlargest"]] != [b[1] * b[2] for b in m["nlargest"]]:
+            bad = f"n_largest impl {[x[3] for x in o['nlargest']]} model {[b[1] * b[2] for b in m['nlargest']]}"
+        if bad:
+            problems.append((c, f"analysis outputs of call {i + 1} of a session differ from Lean model BlockingAnalysis: " + bad, False, None))
+        else:
+            ctx.traces_validated += 1
+    return problems
+
+
 def impl_fails(case, key=None):
     case = normalise(case)
     r = run_impl_safe(case)
     if "__error__" in r:
         return key is None or key.get("failure") == "real code raised"
+    if "steps" in case:
+        return any(key is None or k == key for _, k, _ in session_failures(case, r))
     v = verdict(case, r)
     return v is not None and (key is None or failure_key(case, v) == key)
 
 
+def shrink_session(case, key=None):
+    """Fewer calls, then fewer rows (a row is removed from every step that has it)."""
+    cur = json.loads(json.dumps(case))
+    budget = 16
+
+    def fails(c):
+        return impl_fails(c, key)
+
+    changed = True
+    while changed and budget > 0:
+        changed = False
+        for i in range(len(cur["steps"]) - 1, -1, -1):
+            if budget <= 0 or len(cur["steps"]) <= 1:
+                break
+            cand = json.loads(json.dumps(cur))
+            gone = cand["steps"].pop(i)
+            if i < len(cand["steps"]):
+                nxt = cand["steps"][i]
+                before = cand["steps"][i - 1]["tables"] if i else None
+                if before is None or before == nxt["tables"]:
+                    nxt["change"] = None if before is None or nxt.get("change") != "register_overwrite" else nxt["change"]
+                elif not nxt.get("change"):
+                    nxt["change"] = gone.get("change")
+            budget -= 1
+            if fails(cand):
+                cur, changed = cand, True
+        ids = sorted({(ti, json.dumps(r["unique_id"])) for st in cur["steps"] for ti, t in enumerate(st["tables"]) for r in t})
+        for ti, u in ids:
+            if budget <= 0:
+                break
+            cand = json.loads(json.dumps(cur))
+            for st in cand["steps"]:
+                st["tables"][ti] = [r for r in st["tables"][ti] if json.dumps(r["unique_id"]) != u]
+            if any(len(st["tables"][ti]) == 0 for st in cand["steps"]):
+                continue
+            for j in range(1, len(cand["steps"])):
+                if cand["steps"][j]["tables"] == cand["steps"][j - 1]["tables"] and cand["steps"][j].get("change") not in (None, "register_overwrite"):
+                    cand["steps"][j]["change"] = None
+            budget -= 1
+            if fails(cand):
+                cur, changed = cand, True
+    return normalise(cur)
+
+
 def shrink(case, key=None):
+    if "steps" in case:
+        return shrink_session(case, key)
+
     def fails(c):  # the same failure, not merely some failure
         return impl_fails(c, key)
 
@@ -479,15 +1191,36 @@ def absorption_shape(ast) -> bool:
     return any(absorption_shape(x) for x in ast[1:] if isinstance(x, (tuple, list)) and x and x[0] in ("and", "or", "not"))
 
 
+def dnf_bare_disjunct_shape(ast) -> bool:
+    """The rule is an OR at the top with a disjunct that is a bare predicate (no AND) and a disjunct that is a conjunction, e.g.
+    B OR (C AND A), NOT B OR (A AND B), (X OR Y) OR (Z AND A) - and K13's A OR (A AND C).  On that shape the installed sqlglot's
+    join_condition (DNF branch: a bare disjunct contributes an EMPTY list of equalities, which the loop takes for 'not initialised yet')
+    returns the equalities of the conjunction as keys of the whole rule: B OR (C AND A) is split as A AND (B OR C)
+    (probe design_probes/audit_c14_3.py)."""
+    def disjuncts(a):
+        return disjuncts(a[1]) + disjuncts(a[2]) if a[0] == "or" else [a]
+
+    if ast[0] != "or":
+        return False
+    ds = disjuncts(ast)
+    return any(d[0] != "and" for d in ds) and any(d[0] == "and" for d in ds)
+
+
 def failure_key(case, what):
     cls = classify(what)
-    if cls == "reported split is not the rule":
-        return {"failure": cls, "absorption_shape": absorption_shape(case["rule"]["ast"])}
+    if cls == "reported split is not the rule" and "steps" not in case:
+        return {"failure": cls, "absorption_shape": absorption_shape(case["rule"]["ast"]), "dnf_bare_disjunct_shape": dnf_bare_disjunct_shape(case["rule"]["ast"])}
+    if cls == "real code raised" and "steps" not in case:
+        import re
+
+        m = re.match(r"real code raised (\w+)", what)
+        return {"failure": cls, "error": m.group(1) if m else "?", "link_type": case["link_type"], "fewer_than_two_nonempty_tables": sum(1 for t in case["tables"] if t) < 2}
     return {"failure": cls}
 
 
 def classify(what):
-    for pat, cls in [("are not the rule", "reported split is not the rule"), ("post-filter count", "post-filter count differs from scored pairs"), ("pre-filter count", "pre-filter count differs from block products"),
+    for pat, cls in [("are not the rule", "reported split is not the rule"), ("post-filter count reported as", "post-filter placeholder / count does not follow the options"),
+                     ("cumulative counts with max_rows_limit", "max_rows_limit of the cumulative counts applied wrongly"), ("post-filter count", "post-filter count differs from scored pairs"), ("pre-filter count", "pre-filter count differs from block products"),
                      ("marginal counts", "marginal counts differ from match_key counts"), ("cumulative_rows/start", "cumulative totals inconsistent"),
                      ("cartesian", "cartesian differs from admissible pairs"), ("n_largest", "n_largest_blocks wrong"), ("real code raised", "real code raised")]:
         if pat in what:
@@ -526,7 +1259,14 @@ def run(ctx: core.Ctx):
         "cases = C01's tables (1-3 tables x 1-9 rows, NULL-heavy tiny domains, int/str ids, explicit source_dataset column so that composite ids are reproducible) x a single rule "
         "(conjunction of 1-3 equi-join atoms incl. substr keys, optional filter parts: <, cross-column equality, literals, OR, NOT; 15% arbitrary rules without equi keys) "
         "x a rule list of length 1-4 (plain, salted on duckdb) x n in {1,2,5}; all link types; duckdb+sqlite; the three public functions are called on fresh DatabaseAPIs. "
-        "+ 300 translation-validation inputs for the generated calculate_cartesian. non-trivial = some pair is scored; distinct = hash of (tables, rule, rules, link type, engine, n)."
+        "+ an OPTIONS family on top of such cases: layouts (ONE pre-concatenated table with its own source dataset column under every link type, other names for the unique id / source dataset "
+        "columns incl. a name Splink has to create, arguments omitted vs given, columns in another order, a single table not in a list, an empty table), rule forms (str / dict / CustomRule / "
+        "block_on / And(block_on, CustomRule); the same creator object for every call), n_largest in {0,3,50}, compute_post_filter_count=False, max_rows_limit one below / on / one above the "
+        "pre-filter count (count function and cumulative function). "
+        "+ a SESSION family: 2-4 calls of count / cumulative _data / _chart / n_largest_blocks on ONE database API, tables by name (created with raw SQL or registered through Splink) or as frames, "
+        "same or different rules, contents changed between the calls with raw SQL (insert/update/delete, drop+create) or db_api.register_table(overwrite=True), optionally a failing call in "
+        "between; every call is judged against the contents at the time of the call. "
+        "+ 300 translation-validation inputs for the generated calculate_cartesian. non-trivial = some pair is scored; distinct = hash of (tables, rule, rules, link type, engine, n) / of the session."
     )
     ctx.assumptions = [
         "the equi-join / filter split of a rule is sqlglot's (join_condition); the harness assumes top-level conjuncts that are l/r column or substr equalities are the equi keys and checks the reported counts against that",
@@ -544,28 +1284,56 @@ def run(ctx: core.Ctx):
     else:
         from harness import graphs
 
-        cases = [normalise(c) for c in graphs.load_corpus(PROP)] + [gen_case(ctx.rng) for _ in range(ctx.budget(220, 4000))]
+        # the option / layout family and the sessions draw from their own streams: the base family stays what it was for a given seed
+        rng_o, rng_s = random.Random(ctx.seed * 7 + 101), random.Random(ctx.seed * 7 + 103)
+        cases = ([normalise(c) for c in graphs.load_corpus(PROP)] + [gen_case(ctx.rng) for _ in range(ctx.budget(165, 3200))]
+                 + [gen_options(rng_o, gen_case(rng_o)) for _ in range(ctx.budget(75, 1500))] + [gen_session(rng_s) for _ in range(ctx.budget(65, 1200))])
+    import time
+
+    t_cmp = time.time()
     problems = compare(ctx, cases, drv)
-    if (not ctx.lean.ok or tv_bad or any(not conc for _, _, conc in problems)) and not ctx.replay:
+    t_cmp = time.time() - t_cmp
+    if (not ctx.lean.ok or tv_bad or any(not p_[2] for p_ in problems)) and not ctx.replay:
         ctx.notes.append("proof, translation or correspondence broke: ran the widened failing-input search")
         rng2 = random.Random(ctx.seed + 7919)
-        problems += compare(ctx, [gen_case(rng2) for _ in range(1500)], drv)
-    concrete = [(c, w) for c, w, conc in problems if conc]
-    broken = [(c, w) for c, w, conc in problems if not conc]
-    reported = set()
-    for c, w in concrete:
-        key = failure_key(c, w)
+        problems += compare(ctx, [gen_case(rng2) for _ in range(900)] + [gen_options(rng2, gen_case(rng2)) for _ in range(400)] + [gen_session(rng2) for _ in range(300)], drv)
+    problems = [(tuple(p_) + (None,))[:4] for p_ in problems]
+    concrete = [(c, w, k if k is not None else failure_key(c, w)) for c, w, conc, k in problems if conc]
+    broken = [(c, w) for c, w, conc, _ in problems if not conc]
+    reported, new, t_rep = set(), 0, time.time()
+    for c, w, key in concrete:
         kid = json.dumps(key, sort_keys=True)
-        if kid in reported or len(reported) >= 5:
+        if kid in reported or new >= 5 or len(reported) >= 12:
             continue
         reported.add(kid)
+        # a failure that a registered known finding already describes is reported as it is: shrinking (serial re-runs) is for new ones
+        info0 = {**key, "tables_by": c["tables_by"], "engine": c["engine"]} if "steps" in c else {**key, "asymmetric": not bg.symmetric(c["rule"]["ast"]) or any(not bg.symmetric(x["ast"]) for x in c["rules"]), "explicit_sd": c["explicit_sd"]}
+        label0 = f"real output violates C14: {key['failure']} [{key['session_fn']}, {key['last_change']}]" if "steps" in c else "real output violates C14: " + classify(w)
+        if any(core._finding_matches(f, dict(info0, what=label0)) for f in ctx.findings):
+            ctx.violation(label0, {"case": c, "detail": w}, kind="concrete", match_info=info0)
+            continue
         small = shrink(c, key)
         rr = run_impl_safe(small)
-        what = (verdict(small, rr) if "pre" in rr else f"real code raised {rr['__error__']}: {rr['text'][:300]}") or w
-        ctx.violation("real output violates C14: " + classify(what),
-                      {"case": small, "rule_sql": rule_arg(small["rule"]), "rules_sql": [rule_arg(r) for r in small["rules"]], "observed": rr,
-                       "expected": {k: (v if k != "blocks" else {str(a): b for a, b in v.items()}) for k, v in oracle(small).items()}, "detail": what},
-                      kind="concrete", match_info={**failure_key(small, what), "asymmetric": not bg.symmetric(small["rule"]["ast"]) or any(not bg.symmetric(x["ast"]) for x in small["rules"]), "explicit_sd": small["explicit_sd"]})
+        before = len(ctx.violations)
+        if "steps" in small:
+            hits = [(w2, k2, i) for w2, k2, i in (session_failures(small, rr) if "steps" in rr else []) if k2 == key]
+            what = hits[0][0] if hits else w
+            i = hits[0][2] if hits else None
+            ctx.violation(f"real output violates C14: {key['failure']} [{key['session_fn']}, {key['last_change']}]",
+                          {"case": small, "calls": [{"fn": FN_CALLED[st["fn"]], "rule_sql": rule_arg(st["rule"]) if "rule" in st else None, "rules_sql": [rule_arg(r) for r in st["rules"]] if "rules" in st else None,
+                                                     "contents": CHANGE_CLASS[st.get("change")], "tables": st["tables"]} for st in small["steps"]],
+                           "observed": rr, "failing_call": None if i is None else i + 1,
+                           "expected_at_failing_call": None if i is None else {k: (v if k != "blocks" else {str(a): b for a, b in v.items()}) for k, v in oracle(step_case(small, i), (rr["steps"][i].get("atoms") and [tuple(a) for a in rr["steps"][i]["atoms"]]) or None).items()},
+                           "detail": what},
+                          kind="concrete", match_info={**key, "tables_by": small["tables_by"], "engine": small["engine"]})
+        else:
+            what = (verdict(small, rr) if "pre" in rr else f"real code raised {rr['__error__']}: {rr['text'][:300]}") or w
+            ctx.violation("real output violates C14: " + classify(what),
+                          {"case": small, "rule_sql": rule_arg(small["rule"]), "rules_sql": [rule_arg(r) for r in small["rules"]], "observed": rr,
+                           "expected": {k: (v if k != "blocks" else {str(a): b for a, b in v.items()}) for k, v in oracle(small).items()}, "detail": what},
+                          kind="concrete", match_info={**failure_key(small, what), "asymmetric": not bg.symmetric(small["rule"]["ast"]) or any(not bg.symmetric(x["ast"]) for x in small["rules"]), "explicit_sd": small["explicit_sd"]})
+        new += len(ctx.violations) > before  # failures matched by a registered known finding do not use up the report slots
+    ctx.notes.append(f"timing: correspondence over {len(cases)} cases {t_cmp:.1f}s; shrinking and reporting {len(reported)} distinct failures {time.time() - t_rep:.1f}s")
     if not concrete:
         if broken:
             c, w = broken[0]
